@@ -94,8 +94,10 @@ def stages(tier):
     st.append(dict(label="H1: abandonment histories, every single deviation", harness="h_hist", variant="sched", configs=cfgs(ab1, bound=1), share=0.5,
                    what="close / destroy while objects are still queued or undecoded, or with unflushed writes"))
     short = [x for x in ab if len(x[0]) <= 13 and x[1] in (1, 3)]
+    # the decoder blocked on a full queue when the session is abandoned: capacity 1, three objects
+    fullq = [(h, 3, True) for h in ("I.D", "I.C.D", "I.R.D", "I.R.C.D", "I.R.C.C.D", "I.R.R.D", "I.R.R.C.D", "I.A.R.C.D", "I.B.R.C.D", "M.I.R.C.D")]
     st.append(dict(label="H2: short abandonment histories, every pair of deviations", harness="h_hist", variant="sched", chunk=2,
-                   configs=cfgs(short if not quick else short[::4], bound=2), share=0.4))
+                   configs=cfgs(short if not quick else short[::4], bound=2) + cfgs(fullq, bound=2, q=1), share=0.4))
     asan = allh[::7] if quick else allh[::2]
     st.append(dict(label="HA: AddressSanitizer, default schedule + static orders", harness="h_hist", variant="sched-asan",
                    configs=cfgs(asan, bound=0) + cfgs(asan[::3], static=1, bound=0) + cfgs([x for x in asan if x[2]][::4], bound=1, postrelease=1), share=0.5))
